@@ -19,6 +19,8 @@ for d in sorted(glob.glob('/verif/seeded/*')):
     if not sid.startswith(pref): continue
     meta = json.load(open(os.path.join(d, 'meta.json')))
     prop = meta['property']
+    if meta.get('obsolete'):
+        rows.append((sid, 'obsolete', meta['obsolete'][:100])); continue
     sh('git checkout -q -- . && git clean -qfd', cwd=WT)
     rc, o = sh(f'git apply {d}/patch.diff', cwd=WT)
     if rc != 0:
@@ -36,4 +38,4 @@ for d in sorted(glob.glob('/verif/seeded/*')):
         json.dump(meta, open(os.path.join(d, 'meta.json'), 'w'), indent=1)
 sh(f'git -C /repo worktree remove --force {WT}')
 for r in rows: print('%-10s %-22s %s' % r)
-print('total', len(rows), 'detected', sum(1 for r in rows if r[1] == 'detected'))
+print('total', len(rows), 'detected', sum(1 for r in rows if r[1] == 'detected'), 'obsolete', sum(1 for r in rows if r[1] == 'obsolete'))
